@@ -345,3 +345,14 @@ func bindOpsSmall() []Action {
 	}
 }
 
+
+// The boundary-input grid (S-INPUT) also evaluates the state invariants of these properties on every state a
+// boundary-shaped message reaches.
+func init() {
+	for _, o := range []Oracle{oracleC01{}, oracleC03{}, oracleC11{}, oracleC13{}, oracleC14{}, oracleC15{}, oracleC16{}} {
+		c := checks[o.Prop()]
+		if c.Pure == nil {
+			c.Pure = inputGridInv(o)
+		}
+	}
+}
